@@ -15,6 +15,8 @@ CONSTANTS
   DevNilFwd = FALSE
   DevStaleSrc = FALSE
   DevSleepLimiter = FALSE
+  DevWriteLock = FALSE
+  DevRouteFirst = FALSE
   Gen = FALSE
   Emit = FALSE
 INIT Init
